@@ -1480,4 +1480,8 @@ func (c *Ctx) needTheory(th *Theory) {
 	for _, a := range th.Axioms {
 		c.axiomsUsed[th.Name+":"+a] = true
 	}
+	for _, a := range th.Defs {
+		c.axiomsUsed[th.Name+":"+a+" (definition)"] = true
+	}
+	c.theoriesUsed[th.Name] = true
 }
